@@ -15,6 +15,7 @@ def main(pid, tier, repo=None):
         proto.rule_wait(ctx, infos)
         proto.rule_placeholder(ctx, infos)
         proto.rule_nolock(ctx, infos)
+        proto.rule_publish_success(ctx)
         proto.rule_spawn(ctx)
         proto.rule_render_op_results(ctx)
     ctx.assume("fairness and correctness of std::sync::{Mutex, Condvar} are trusted; interleavings involving a panic in a renderer are excluded")
